@@ -19,8 +19,11 @@ LEAN_MODULES = ['OpusProps.C08']
 GEN = []
 SOURCES = ['celt/entenc.c', 'celt/entdec.c', 'celt/entcode.c', 'celt/entcode.h', 'celt/entenc.h', 'celt/entdec.h',
            'celt/mfrngcod.h', 'celt/ecintrin.h', 'celt/arch.h']
-REQUIRED_THEOREMS = []
-UNPROVED = []
+REQUIRED_THEOREMS = ['OpusProps.C08.rng_normalised', 'OpusProps.C08.tell_frac_bounds', 'OpusProps.C08.tell_frac_formula',
+                     'OpusProps.C08.tell_monotone', 'OpusProps.C08.decode_encode_partial', 'OpusProps.C08.lockstep_rng',
+                     'OpusProps.C08.done_within_budget', 'OpusProps.C08.outside_untouched']
+UNPROVED = ['decode_encode (full statement: operation lists that contain ec_enc_patch_initial_bits)',
+            'patch_initial_bits_spec']
 RULE = ('op sequences of length 1..4000 over all nine operation kinds (ec_encode, ec_encode_bin, ec_enc_bit_logp, ec_enc_icdf, '
         'ec_enc_icdf16, ec_enc_uint, ec_enc_bits, ec_enc_patch_initial_bits, ec_enc_shrink) drawn from the seed by a '
         'profile-driven generator (all-kinds mix, mostly raw bits, mostly symbols, mostly uint, top-of-range symbols with '
